@@ -154,6 +154,8 @@ def run_check(prop, instances, tier, explanation, bounds, outside, level_assumpt
             'stubs': stubs,
             'inconclusive': incon[:50], 'best_effort_open': besteff[:50], 'harness_errors': errors[:20],
             'known_findings_reproduced': [k.get('key') for k, _ in knownhit],
+            'known_finding_instances': sorted(set(v.get('label') for _k, v in knownhit))[:400],
+            'violating_instances': sorted(set('%s :: %s' % (v.get('label'), v.get('key')) for v in viol))[:400],
             'per_instance': [{'label': r.get('label'), 'paths': r.get('paths'), 'claims': r.get('claims'),
                               'unsat': r.get('unsat'), 'sat': r.get('sat'), 'unknown': r.get('unknown'),
                               'wall_s': round(float(r.get('wall_s', 0.0)), 2)} for r in recs][:400],
